@@ -20,8 +20,9 @@ use serde_json::{Value, json};
 use std::collections::{BTreeMap, BTreeSet};
 use std::sync::atomic::{AtomicBool, AtomicU64, Ordering};
 
-/// observed steps 0..=HORIZON for the full cone
-pub const HORIZON: usize = 3;
+/// observed steps 0..=horizon for the full cone (quick / thorough)
+pub const HORIZON_QUICK: usize = 3;
+pub const HORIZON_THOROUGH: usize = 5;
 pub const VARIANTS: [&str; 3] = ["full", "init", "comb"];
 
 #[derive(Clone, Debug)]
@@ -257,7 +258,7 @@ impl Tab {
     }
 }
 
-pub fn check_system(spec: &SysSpec) -> (Vec<Fail>, Info) {
+pub fn check_system(spec: &SysSpec, horizon: usize) -> (Vec<Fail>, Info) {
     let mut info = Info::default();
     // the first failure per (class, variant); the checks go on so that the syntactic and the
     // semantic oracle both get to speak
@@ -419,7 +420,7 @@ pub fn check_system(spec: &SysSpec) -> (Vec<Fail>, Info) {
         if do_full {
             info.symbols_perturbed[0] += 1;
         }
-        let steps = if do_full { HORIZON } else { 0 };
+        let steps = if do_full { horizon } else { 0 };
         for t in 0..=steps {
             info.pair_states += layer.len() as u64;
             info.max_layer = info.max_layer.max(layer.len() as u64);
@@ -465,20 +466,20 @@ pub fn check_system(spec: &SysSpec) -> (Vec<Fail>, Info) {
 }
 
 pub fn meta(rep: &mut Report) {
-    rep.rule = "systems = S1 (full pools incl. div/rem) + S3(3) of skeletons K1..K7 (thorough: S1 + S3(4) + S2(32) + S3(5) of K1/K3/K4/K7) plus hand-built shapes and an array-input system; every sub-expression node of the system (state and input symbols included) is a root; cone_of_influence / _init / _comb are called on each. Oracle: (a) only declared inputs/states; (b) set-equal to an independent dependency search (children; state -> init for full+init, state -> next for full); (c) for every symbol x outside the reported cone and every pair of reference executions differing only in x's free choices (x an input: its value at every step; x an init-less state: its initial value; x a next-less state: its value after every step) the root has the same value at every step 0..3 (full), at step 0 (init), under every valuation of all states and inputs (comb). All initial states, all inputs at every step, all values of next-less states are enumerated (pair-state search on a table of all node values). evaluations = cone calls; distinct_nontrivial = distinct systems in which at least one root's cone is a strict subset of the symbols (a perturbation ran); states = pair-states visited by the perturbation search; transitions = perturbed steps compared".into();
+    rep.rule = "systems = S1 (full pools incl. div/rem) + S3(3) of skeletons K1..K7 (thorough: S1 + S3(4) + S2(32) + S3(5) of K1/K3/K4/K7) plus hand-built shapes and an array-input system; every sub-expression node of the system (state and input symbols included) is a root; cone_of_influence / _init / _comb are called on each. Oracle: (a) only declared inputs/states; (b) set-equal to an independent dependency search (children; state -> init for full+init, state -> next for full); (c) for every symbol x outside the reported cone and every pair of reference executions differing only in x's free choices (x an input: its value at every step; x an init-less state: its initial value; x a next-less state: its value after every step) the root has the same value at every step 0..3 (quick) / 0..5 (thorough) (full), at step 0 (init), under every valuation of all states and inputs (comb). All initial states, all inputs at every step, all values of next-less states are enumerated (pair-state search on a table of all node values). evaluations = cone calls; distinct_nontrivial = distinct systems in which at least one root's cone is a strict subset of the symbols (a perturbation ran); states = pair-states visited by the perturbation search; transitions = perturbed steps compared".into();
     rep.assumptions = vec![
         "executions are not restricted by the constraints (the cone is a property of the functions)".into(),
         "a state with an init expression has no free initial value; a state with a next function has no free later value".into(),
-        "horizon 3 steps for the full cone".into(),
+        "horizon 3 (quick) / 5 (thorough) steps for the full cone".into(),
     ];
 }
 
-fn report(spec: &SysSpec, f: &Fail, order: u64, rep: &Report) {
+fn report(spec: &SysSpec, horizon: usize, f: &Fail, order: u64, rep: &Report) {
     let (class, variant) = (f.class.clone(), f.variant);
-    let min = shrink_spec(spec, &|s| check_system(s).0.iter().any(|g| g.class == class && g.variant == variant));
-    let f2 = check_system(&min).0.into_iter().find(|g| g.class == class && g.variant == variant).unwrap_or_else(|| f.clone());
+    let min = shrink_spec(spec, &|s| check_system(s, horizon).0.iter().any(|g| g.class == class && g.variant == variant));
+    let f2 = check_system(&min, horizon).0.into_iter().find(|g| g.class == class && g.variant == variant).unwrap_or_else(|| f.clone());
     let sig = format!("C17|{}|{}|{}|{}", f2.class, f2.variant, wclass(f2.width.max(1)), f2.shape);
-    rep.violation(Violation { sig, what: format!("[{}] {}", sys_class(spec), f2.what), case: json!({"system": min.to_json(), "found_in": spec.to_json()}), order });
+    rep.violation(Violation { sig, what: format!("[{}] {}", sys_class(spec), f2.what), case: json!({"system": min.to_json(), "horizon": horizon, "found_in": spec.to_json()}), order });
 }
 
 pub fn run(opts: &Opts, rep: &Report) {
@@ -486,6 +487,8 @@ pub fn run(opts: &Opts, rep: &Report) {
     let budget = Budget::new(opts.budget_s);
     let specs = system_family(tier, true);
     rep.add("systems", specs.len() as u64);
+    let horizon = if tier.is_thorough() { HORIZON_THOROUGH } else { HORIZON_QUICK };
+    rep.note("horizon", json!(horizon));
     let capped = AtomicBool::new(false);
     let skipped = AtomicU64::new(0);
     let failing: Collector<(SysSpec, Fail)> = Collector::default();
@@ -495,7 +498,7 @@ pub fn run(opts: &Opts, rep: &Report) {
             skipped.fetch_add(1, Ordering::Relaxed);
             return;
         }
-        let (fs, info) = check_system(spec);
+        let (fs, info) = check_system(spec, horizon);
         let mut c: BTreeMap<String, u64> = BTreeMap::new();
         c.insert("evaluations".into(), info.cone_calls);
         c.insert("traces_validated_against_impl".into(), info.cone_calls);
@@ -526,7 +529,7 @@ pub fn run(opts: &Opts, rep: &Report) {
         }
     });
     let failing = failing.drain();
-    failing.par_iter().for_each(|(order, (spec, f))| report(spec, f, *order, rep));
+    failing.par_iter().for_each(|(order, (spec, f))| report(spec, horizon, f, *order, rep));
     if capped.load(Ordering::Relaxed) {
         rep.cap_hit(&format!("wall budget {}s: {} systems not checked", opts.budget_s, skipped.load(Ordering::Relaxed)));
     }
@@ -541,7 +544,8 @@ pub fn run(opts: &Opts, rep: &Report) {
 
 pub fn replay(case: &Value, rep: &Report) {
     let spec = SysSpec::from_json(&case["system"]).expect("system");
-    for f in check_system(&spec).0 {
-        report(&spec, &f, 0, rep);
+    let horizon = case["horizon"].as_u64().unwrap_or(HORIZON_QUICK as u64) as usize;
+    for f in check_system(&spec, horizon).0 {
+        report(&spec, horizon, &f, 0, rep);
     }
 }
